@@ -43,7 +43,13 @@ pub fn term(w: &mut Rng, scope: &[VarIx], depth: u32) -> T {
         // compound term (`#[compound] struct Pair(LTerm, LTerm)` / `Duo`)
         let kind = if w.chance(3, 4) { 0 } else { 1 };
         let a = term(w, scope, depth - 1);
-        let b = term(w, scope, depth - 1);
+        let b = if w.chance(1, 3) {
+            // a compound directly inside a compound (its fields are walked by the compound's own
+            // generated code, not by the list code)
+            T::cmp(if w.chance(1, 2) { 0 } else { 1 }, leaf(w, scope), leaf(w, scope))
+        } else {
+            term(w, scope, depth - 1)
+        };
         return T::cmp(kind, a, b);
     }
     let n = w.below(3);
